@@ -288,9 +288,17 @@ def run_case(case):
                     short = br[:-1]
                     bad("smt.calc_root", ks, [keys[0], b"v", short], lambda: calc_root(keys[0], b"v", short), "ValidationError", state)
                     bad("smt.calc_root", ks, [b, b"v", br], lambda: calc_root(b, b"v", br), "ValidationError", state)
+                    bad("smt.calc_root", ks, [keys[0], b, br], lambda: calc_root(keys[0], b, br), "ValidationError", state)
                 elif which == 11:
                     br = list(t.branch(keys[0]))
                     bad("smt.proof_init", ks, [keys[0], b, br], lambda: SparseMerkleProof(keys[0], b, br), "ValidationError", state)
+                    # an ill-typed key with a branch of the length its own len() would demand (when it has one): only the
+                    # type check can refuse it
+                    try:
+                        brb = (br * 9)[:len(b) * 8]
+                    except TypeError:
+                        brb = br
+                    bad("smt.proof_init", ks, [b, b"v", brb], lambda: SparseMerkleProof(b, b"v", brb), "ValidationError", state)
                     bad("smt.proof_init", ks, [keys[0], b"v", br + br[:1]], lambda: SparseMerkleProof(keys[0], b"v", br + br[:1]), "ValidationError", state)
                 elif which == 12:
                     bad("smt.proof_update", ks, [b], lambda: proof.update(b, b"v", ups), "ValidationError", state)
